@@ -1363,8 +1363,9 @@ def run(ctx, rep):
     rule_synth(ctx, rep)
     rule_doclabel(ctx, rep)
     rule_signspan(ctx, rep)
-    from rules.c15 import rule_verbatim
+    from rules.c15 import rule_verbatim, rule_measured
     rule_verbatim(ctx, rep, rid="R-C05-verbatim")
+    rule_measured(ctx, rep, rid="R-C05-measured")
     from rules import c05_blank, c05_joinorder
     c05_blank.run(ctx, rep)
     c05_joinorder.run(ctx, rep)
